@@ -9,6 +9,7 @@ mod c01;
 mod c02;
 mod c03;
 mod c04;
+mod c05;
 mod c11;
 mod c15;
 mod c20;
@@ -17,7 +18,7 @@ mod evalkit;
 use runner::{Check, Tier};
 
 fn checks() -> Vec<&'static dyn Check> {
-    vec![&c01::C01, &c02::C02, &c03::C03, &c04::C04, &c11::C11, &c15::C15, &c20::C20]
+    vec![&c01::C01, &c02::C02, &c03::C03, &c04::C04, &c05::C05, &c11::C11, &c15::C15, &c20::C20]
 }
 
 fn usage() -> ! {
